@@ -5,6 +5,7 @@ import N2V.Model.Render
 import N2V.Model.Proto
 import N2V.Monitors
 import N2V.Model.Db
+import N2V.Model.Load
 open N2V
 
 def showRes (r : Res Bytes) : String :=
@@ -221,6 +222,81 @@ def handleDbr (case impl : List String) : String :=
     line ++ mons mon
   | _ => "bad-case"
 
+namespace LoadDrv
+open Proto Load
+
+def optS : Option Bytes → String
+  | none => "N"
+  | some b => "S" ++ hexOfBytes b
+
+def showLoader (l : Loader) : String :=
+  let g := l.graph
+  let files := String.join (g.files.map (fun f =>
+    s!" {hexOfBytes f.name} " ++ (match f.input with | some b => toString b | none => "-") ++ s!" {f.dependents.length}" ++
+      String.join (f.dependents.map (fun d => s!" {d}"))))
+  let builds := String.join (g.builds.map (fun b =>
+    s!" {hexOfBytes b.loc.file} L{b.loc.line} {optS b.cmdline} {optS b.desc} {optS b.depfile} {b01 b.showIncludes}" ++
+    (match b.rspfile with | none => " N N" | some (p, c) => s!" S{hexOfBytes p} S{hexOfBytes c}") ++
+    s!" {optS b.pool} {b01 b.hideSuccess} {b01 b.hideProgress}" ++
+    s!" {b.ins.length} {b.explicit} {b.implicit} {b.orderOnly}" ++ String.join (b.ins.map (fun i => s!" {i}")) ++
+    s!" {b.outs.length} {b.explicitOuts}" ++ String.join (b.outs.map (fun i => s!" {i}"))))
+  s!"ok F {g.files.length}" ++ files ++ s!" B {g.builds.length}" ++ builds ++
+    s!" D {l.defaults.length}" ++ String.join (l.defaults.map (fun d => s!" {d}")) ++
+    s!" P {l.pools.length}" ++ String.join (l.pools.map (fun p => s!" {hexOfBytes p.1} {p.2}")) ++
+    s!" W {l.warnings}"
+
+def normMsg (m : String) : String :=
+  if m.startsWith "unexpected variable" then "unexpected variable" else m
+
+def showLoc (l : Loc) : String := stringOfBytes l.file ++ ":" ++ toString l.line
+
+def showErr : LoadErr → String
+  | .parse file msg _ (.ok v) =>
+    s!"perr {hexOfBytes file} {v.line} {v.col} {hexOfBytes v.excerpt} {hexOfBytes (bytesOfString (normMsg msg))}"
+  | .parse _ _ _ (.panic m) => "panic " ++ hexOfBytes (bytesOfString m)
+  | .parse _ _ _ _ => "bad-view"
+  | .dupOutput name here there =>
+    "err " ++ hexOfBytes (bytesOfString ("dupout " ++ stringOfBytes name ++ " " ++ showLoc here ++ " " ++ showLoc there))
+  | .other k =>
+    if k.startsWith "panic: " then "panic " ++ hexOfBytes (bytesOfString (k.drop 7).toString)
+    else "err " ++ hexOfBytes (bytesOfString k)
+
+def filesD : P (Bytes × List (Bytes × Bytes)) := do
+  let main ← bytes
+  let fs ← counted (do let n ← bytes; let c ← bytes; pure (n, c))
+  pure (main, fs)
+
+def runLoadWith (ext : Bool) (main : Bytes) (files : List (Bytes × Bytes)) : String :=
+  let fs : Load.Fs := fun n => (files.find? (fun p => p.1 == n)).map (·.2)
+  match Load.loadWith ext fs main with
+  | .ok l => showLoader l
+  | .error e => showErr e
+
+def runLoad (main : Bytes) (files : List (Bytes × Bytes)) : String := runLoadWith false main files
+
+/-- Drop the digits that follow a ':' (line numbers inside messages). -/
+def maskColonDigitsAux : List Char → Bool → List Char
+  | [], _ => []
+  | c :: r, after =>
+    if c == ':' then ':' :: maskColonDigitsAux r true
+    else if after && c.isDigit then maskColonDigitsAux r true
+    else c :: maskColonDigitsAux r false
+
+def maskColonDigits (l : List Char) : List Char := maskColonDigitsAux l false
+
+def maskErrLine (toks : List String) : List String :=
+  match toks with
+  | ["err", h] => match bytesOfHex h with
+    | some b => ["err", String.ofList (maskColonDigits (stringOfBytes b).toList)]
+    | none => toks
+  | _ => toks
+
+/-- Mask the `L<line>` tokens: line numbers legitimately differ between spellings. -/
+def maskLines (toks : List String) : List String :=
+  toks.map (fun t => if t.startsWith "L" && (t.drop 1).toString.toNat?.isSome then "L" else t)
+
+end LoadDrv
+
 /-- `case` tokens and the implementation's observed tokens -> model line ++ monitor verdicts. -/
 def handle (case impl : List String) : String :=
   match case with
@@ -244,8 +320,8 @@ def handle (case impl : List String) : String :=
             [("lenOk", m.lenOk), ("idem", m.idem), ("normal", m.normal), ("sameLoc", m.sameLoc)]
           | _, _ => [("parse", false)]
         | "panic" :: _ =>
-          -- C13 is about paths of up to 60 components; the empty string is rejected upstream
-          [("noPanicWithinCap", decide (s = [] ∨ Canon.numComps s false > Canon.CAP))]
+          -- only the empty string (rejected upstream by every caller) may be refused
+          [("noPanic", decide (s = []))]
         | _ => [("noAbort", false)]
       line ++ mons (("specAgrees", specOk) :: m)
   | ["depfile", h] =>
@@ -291,6 +367,36 @@ def handle (case impl : List String) : String :=
       "ok " ++ hexOfBytes (Render.progressBar ⟨w, r, q, ru, d, f⟩ n) ++ mons mon
     | _ => "bad-case"
   | "sched" :: rest => handleSched rest impl
+  | "load" :: rest =>
+    match (LoadDrv.filesD.run rest) with
+    | some ((main, files), []) =>
+      let diag := match impl with
+        | "ok" :: _ => true | "perr" :: _ => true | "err" :: _ => true | _ => false
+      LoadDrv.runLoad main files ++ mons [("loadedOrDiagnostic", diag),
+        ("includeExtendsScope", LoadDrv.runLoadWith true main files == " ".intercalate impl)]
+    | _ => "bad-case"
+  | "loadpair" :: rest =>
+    match (do let a ← LoadDrv.filesD; Proto.kw "|"; let b ← LoadDrv.filesD; pure (a, b)).run rest with
+    | some (((m1, f1), (m2, f2)), []) =>
+      let r1 := LoadDrv.runLoad m1 f1
+      let r2 := LoadDrv.runLoad m2 f2
+      -- monitors on the implementation's two observations
+      let implParts := (" ".intercalate impl).splitOn " || "
+      let spellingIndep := match implParts with
+        | [a, b] =>
+          let ta := (a.splitOn " ").filter (· ≠ "")
+          let tb := (b.splitOn " ").filter (· ≠ "")
+          -- compare graphs; for parse errors only the message kind (offsets/excerpts differ)
+          if ta.head? == some "perr" && tb.head? == some "perr" then ta.getLast? == tb.getLast?
+          else LoadDrv.maskErrLine (LoadDrv.maskLines ta) == LoadDrv.maskErrLine (LoadDrv.maskLines tb)
+        | _ => false
+      let diag := implParts.all (fun a => a.startsWith "ok" || a.startsWith "perr" || a.startsWith "err")
+      let inclOk := match implParts with
+        | [a, _] => LoadDrv.runLoadWith true m1 f1 == a.trimAscii.toString
+        | _ => false
+      r1 ++ " || " ++ r2 ++ mons [("spellingIndependent", spellingIndep), ("loadedOrDiagnostic", diag),
+        ("includeExtendsScope", inclOk)]
+    | _ => "bad-case"
   | "dbw" :: rest => handleDbw rest
   | "dbr" :: rest => handleDbr rest impl
   | _ => "bad-op"
